@@ -49,6 +49,18 @@ fn pathspec(max: usize) -> BoxedStrategy<PathSpec> {
         .boxed()
 }
 
+/// many harmless components, then as many `..` (or a few more): the climb starts deeper than any fixed inspection depth
+fn deep_path() -> BoxedStrategy<PathSpec> {
+    (prop_oneof![3 => 20usize..140, 1 => prop::sample::select(vec![31usize, 32, 33, 63, 64, 65, 127, 128, 129, 255, 256, 257])], 0usize..4, prop::bool::weighted(0.15))
+        .prop_map(|(n, extra, double_slash)| {
+            let mut comps: Vec<String> = vec!["d".to_string(); n];
+            comps.extend(std::iter::repeat("..".to_string()).take(n + extra));
+            comps.push("x".to_string());
+            PathSpec { absolute: false, comps, double_slash }
+        })
+        .boxed()
+}
+
 fn plain_name() -> BoxedStrategy<PathSpec> {
     prop::sample::select(vec!["out", "a", "sub"])
         .prop_map(|n| PathSpec { absolute: false, comps: vec![n.to_string()], double_slash: false })
@@ -65,6 +77,12 @@ fn strategy(_t: Tier) -> BoxedStrategy<Case> {
         // multi-file with a hostile name
         2 => (pathspec(3), vec(pathspec(3), 0..4), any::<u64>())
             .prop_map(|(name, paths, seed)| Case { multi: true, name, paths, seed }),
+        // deep climbs
+        1 => (deep_path(), any::<u64>()).prop_map(|(name, seed)| Case { multi: false, name, paths: vec![], seed }),
+        1 => (plain_name(), deep_path(), vec(pathspec(3), 0..2), any::<u64>()).prop_map(|(name, deep, mut paths, seed)| {
+            paths.push(deep);
+            Case { multi: true, name, paths, seed }
+        }),
     ]
     .boxed()
 }
@@ -115,18 +133,21 @@ pub fn check(case: &Case) -> Outcome {
     std::env::set_current_dir(&cwd).unwrap();
     let canary = canary_dir.to_string_lossy().to_string();
 
-    // keep every escape inside the watched private root: bound the number of ".."
+    // keep every escape inside the watched private root: a `..` that would take the path more than DEPTH levels above
+    // the download directory (counting the levels gone down before it) is dropped
     let mut case = case.clone();
-    let mut budget = DEPTH;
-    let mut trim = |p: &mut PathSpec, budget: &mut usize| {
+    let trim = |p: &mut PathSpec, start: i64| -> i64 {
+        let mut depth = start;
         let mut kept = vec![];
         for c in p.comps.drain(..) {
-            let n = dd(&c);
+            let n = dd(&c) as i64;
             if n > 0 {
-                if *budget < n {
+                if depth - n < -(DEPTH as i64) {
                     continue;
                 }
-                *budget -= n;
+                depth -= n;
+            } else if c != "." && !c.is_empty() {
+                depth += 1;
             }
             kept.push(c);
         }
@@ -134,13 +155,13 @@ pub fn check(case: &Case) -> Outcome {
             kept.push("a".to_string());
         }
         p.comps = kept;
+        depth
     };
-    // worst case per file = name's dotdots + that path's dotdots
-    trim(&mut case.name, &mut budget);
-    let name_dd = dotdots(&case.name);
+    // a multi-file torrent's paths start below the name; short names count as not going down at all (an
+    // implementation may drop or flatten them)
+    let after_name = trim(&mut case.name, 0).min(0);
     for p in case.paths.iter_mut() {
-        let mut b = DEPTH - name_dd.min(DEPTH);
-        trim(p, &mut b);
+        trim(p, after_name);
     }
 
     let hostile = |p: &PathSpec| p.absolute || dotdots(p) > 0;
@@ -169,6 +190,7 @@ pub fn check(case: &Case) -> Outcome {
         files[0].1 = 4;
     }
     o.class_if(case.multi && files.is_empty(), "multi-file-without-entries");
+    o.class_if(std::iter::once(&case.name).chain(case.paths.iter()).any(|p| p.comps.len() > 40), "climb-after-more-than-20-components");
     o.class_if(case.multi && files.iter().map(|f| f.1).sum::<usize>() % 4 == 0 && files.last().map(|f| f.1 == 0).unwrap_or(false), "empty-file-at-the-very-end-of-the-content");
     let geo = Geometry { piece_len: 4, files, multi: case.multi, name: name.clone(), content_seed: case.seed };
     let t = Torrent::new(geo.clone());
@@ -256,7 +278,7 @@ fn run(ctx: &WorkerCtx) -> WorkerReport {
 pub fn def() -> PropDef {
     PropDef {
         id: "C04",
-        rule: "name/path strings assembled from the component alphabet {.., ., empty, a, sub, ..x, x.., space, ..., and backslash-separated climbs such as ..\\bs} joined by / or //, optionally absolute (absolute ones point into a per-worker canary directory), for single-file and multi-file torrents (0-3 file entries: a multi-file torrent without entries still has a name) with a small valid payload; the real Extractor runs in <private root>/c/l1/l2. Oracle: recursive listing (names, sizes) of the private root outside the cwd is unchanged whether extraction reports Done or Fail; for multi-file torrents with a plain name every created entry is inside ./<name>/. Refusing and neutralising are both accepted. Non-trivial = some name/path has a `..` or is absolute; distinct by hash of the case.",
+        rule: "name/path strings assembled from the component alphabet {.., ., empty, a, sub, ..x, x.., space, ..., and backslash-separated climbs such as ..\\bs} joined by / or //, plus deep climbs (20-257 harmless components followed by as many `..` or up to three more), optionally absolute (absolute ones point into a per-worker canary directory), for single-file and multi-file torrents (0-3 file entries: a multi-file torrent without entries still has a name) with a small valid payload; the real Extractor runs in <private root>/c/l1/l2. Oracle: recursive listing (names, sizes) of the private root outside the cwd is unchanged whether extraction reports Done or Fail; for multi-file torrents with a plain name every created entry is inside ./<name>/. Refusing and neutralising are both accepted. Non-trivial = some name/path has a `..` or is absolute; distinct by hash of the case.",
         assumptions: &[
             "the number of `..` components per resulting path is capped at the depth of the cwd below the worker's private root (3), so that every escape lands where the oracle looks",
             "symlinks already present in the download directory are out of scope (the property speaks about names and paths in the metainfo)",
@@ -266,7 +288,7 @@ pub fn def() -> PropDef {
             cases: |t| t.pick(20_000, 300_000),
             run,
             replay: |v| replay_case::<Case>(v, check),
-            min_class: &[("hostile-path", 0.2981), ("hostile-name", 0.1), ("absolute", 0.1), ("dotdot-after-normal-component", 0.1), ("backslash-component", 0.15), ("multi-file-without-entries", 0.025)],
+            min_class: &[("hostile-path", 0.2981), ("hostile-name", 0.1), ("absolute", 0.1), ("dotdot-after-normal-component", 0.1), ("backslash-component", 0.15), ("multi-file-without-entries", 0.025), ("climb-after-more-than-20-components", 0.08)],
         }],
     }
 }
